@@ -33,6 +33,7 @@ LOCAL_MODULES = {
     "local_session.rs": "session.rs",
     "local_money.rs": "compiler/money.rs",
     "local_dynamic_type.rs": "compiler/dynamic_type.rs",
+    "local_smartcalc.rs": "smartcalc.rs",
 }
 
 
